@@ -288,6 +288,30 @@ def gen_pieces(rng, cfg):
             merged[-1] = ("blank", "SPACE", merged[-1][2] + p[2])
         else:
             merged.append(p)
+    if cfg["span"] and not cfg.get("closer_is_token") and not cfg.get("blank_line_closes") and rng.random() < 0.15:
+        # a statement line is kept as a comment further down: a block comment whose body has a whole line that reads
+        # exactly like an earlier line of the text
+        groups, cur, dirty = [], [], False
+        for p in merged:
+            if p[0] == "nl":
+                if cur and not dirty:
+                    groups.append(cur)
+                cur, dirty = [], False
+            elif "\n" in p[2]:
+                if cur:
+                    cur = []
+                dirty = True        # (the rest of this line belongs to a token that began above)
+                cur = []
+            else:
+                cur.append(p)
+        opener, closer = rng.choice(cfg["mls"]) if cfg.get("mls") else cfg.get("ml", ("/*", "*/"))
+        good = [g for g in groups if sum(1 for q in g if q[0] == "tok") >= 2
+                and closer not in "".join(q[2] for q in g) and opener not in "".join(q[2] for q in g)]
+        if good and all(p[0] != "bad" for p in merged):
+            line = "".join(q[2] for q in rng.choice(good)).rstrip()
+            if merged and merged[-1][0] != "nl":
+                merged.append(("nl", None, "\n"))
+            merged.append(("tok", "COMMENT", opener + rng.choice(["", " was:"]) + "\n" + line + "\n" + closer))
     return merged
 
 
